@@ -403,4 +403,26 @@ theorem read_put2 (r : Ring.Ring ℝ) (hr : r.WF) (a b : ℝ) (i j o' : ℤ) :
   rw [read_writeInplace _ (writeInplace_wf r hr a i), read_writeInplace r hr]; rfl
 
 
+/-! ### Concrete facts used by the negation witnesses of `Props/C02.lean` -/
+
+/-- All-zero two-slot ring used by the witnesses. -/
+def z2 : Ring.Ring ℝ := ⟨2, 0, [0, 0]⟩
+theorem z2_wf : z2.WF := by unfold Ring.WF z2; simp
+
+theorem half_off_grid : ∀ k : ℤ, (0 : ℝ) < |(k : ℝ) * 1 - 1 / 2| := by
+  intro k
+  apply abs_pos.mpr
+  intro h
+  have h2 : (2 : ℝ) * (k : ℝ) = 1 := by linarith
+  have h3 : (2 : ℤ) * k = 1 := by exact_mod_cast h2
+  omega
+
+theorem half_in_range : InRange z2.n 1 0 (1 / 2) := by
+  unfold InRange z2; norm_num
+
+theorem rhe_quarter : rhe ((1 / 4 : ℝ) / 1) = 0 := by
+  have hf : ⌊(1 / 4 : ℝ) / 1⌋ = 0 := by rw [Int.floor_eq_iff]; norm_num
+  unfold rhe; rw [hf]; norm_num
+
+
 end InfernoVerif.Select
